@@ -2,7 +2,7 @@
 # tools/seed_matrix.sh [IDs...] — re-run every kept seeded change (seeded/<ID>-<k>/patch.diff) against its property's
 # quick check on a scratch copy of /repo's working tree; prints one line per change and writes seeded/MATRIX.md
 cd "$(dirname "$0")/.."
-OUT=seeded/MATRIX.md
+OUT=${MATRIX_OUT:-seeded/MATRIX.md}
 echo "Quick tier, VERIF_SEED=${VERIF_SEED:-1}, against /repo HEAD $(git -C /repo rev-parse --short HEAD) with each change applied to a scratch copy." > $OUT.tmp; echo >> $OUT.tmp
 echo "| seeded change | needs | check | result | violation kind |" >> $OUT.tmp
 echo "|---|---|---|---|---|" >> $OUT.tmp
